@@ -16,7 +16,10 @@ repo, ver = f"{base}/repo", f"{base}/verif"
 subprocess.run(["git", "-C", "/repo", "worktree", "add", "-q", "--detach", repo, "HEAD"], check=True)
 try:
     subprocess.run(["git", "-C", repo, "apply", f"{V}/seeded/{a.sid}/patch.diff"], check=True)
-    subprocess.run(f"rsync -a --exclude .git --exclude replays --exclude seeded {V}/ {ver}/", shell=True, check=True)
+    # the COMMITTED state of /verif (so that edits in progress do not leak into the run) plus the current Lean build products
+    os.makedirs(ver)
+    subprocess.run(f"git -C {V} archive HEAD | tar -x -C {ver}", shell=True, check=True)
+    subprocess.run(f"rsync -a {V}/lean/.lake {ver}/lean/", shell=True, check=True)
     def run(pid):
         t = time.time()
         env = dict(os.environ, VERIF_SEED=str(a.seed), VERIF_REPO=repo)
